@@ -6,7 +6,9 @@
  *   3. Differential grid against OpenSSL's EVP_KDF ARGON2D/ARGON2I/ARGON2ID.
  *   4. Timing of a 1 MiB, t=3 hash.
  *
- * Build: cc -O2 -Wall -Wextra ref_argon2.c ref_argon2_selftest.c -lcrypto
+ * Build (OpenSSL >= 3.2 is needed for Argon2; here it is in /root/miniconda):
+ *   cc -O2 -Wall -Wextra -I/root/miniconda/include ref_argon2.c \
+ *      ref_argon2_selftest.c -L/root/miniconda/lib -Wl,-rpath,/root/miniconda/lib -lcrypto
  */
 #include <stdio.h>
 #include <stdlib.h>
@@ -294,10 +296,7 @@ test_openssl_grid(void)
             hexdump("ref    ", a, outlen);
             hexdump("openssl", b, outlen);
             failed = 1;
-            if (n_cases > 100000) {
-                return 0;
-            }
-            return 0;
+            return 0; /* stop at the first mismatch */
         }
     }
     if (refused_pwd0) {
@@ -351,9 +350,10 @@ main(void)
         return 1;
     }
     if (have_ossl != 0) {
-        printf("ref_argon2 selftest OK (%lu cases, OpenSSL grid NOT run)\n",
+        /* deliberately not "OK": the differential part did not happen */
+        printf("ref_argon2 selftest PARTIAL (%lu cases, OpenSSL grid NOT run)\n",
                n_cases);
-        return 0;
+        return 2;
     }
     if (n_skipped) {
         fprintf(stderr, "skipped: %lu\n", n_skipped);
